@@ -8,6 +8,8 @@ Separate Extraction
   read_bool write_bool encoded_len write_usize read_usize
   write_many read_many write_option read_option write_vec read_vec_of write_arr read_arr
   write_pair read_pair write_triple read_triple write_string read_string
+  write_unit read_unit write_tup1 read_tup1 write_tup4 read_tup4 write_tup5 read_tup5 write_tup6 read_tup6
+  write_slice write_str
   write_map read_map write_set read_set
   M64 M62 M128 write_f64 read_f64 write_f62 read_f62 write_f128 read_f128
   write_quad read_quad write_cube read_cube write_digest read_digest write_edigest read_edigest
